@@ -213,7 +213,10 @@ func runStream(e *simcore.Env, tp *simcore.Tape) {
 		for i, k := 0, tp.Range(2, 9); i < k; i++ {
 			if tp.Weighted(3, 2) == 0 {
 				time.Sleep(time.Millisecond)
-				rows := m.GenBatch(tp, wl.BatchOpts{BaseMs: time.Now().UnixMilli(), SpanMs: int64([]int{1000, 3600_000, 2 * 86400_000}[tp.Choose(3)]), MaxRows: 120, MaxSeries: 5, Plain: true}, i)
+				// late batches: a part may lie INSIDE the time range of an earlier, wider part, and the next one may overlap the
+				// wide one again (nested and chained overlaps of parts within one segment)
+				back := []int64{0, 0, 700, 1800_000, 40_000_000}[tp.Side().Choose(5)]
+				rows := m.GenBatch(tp, wl.BatchOpts{BaseMs: time.Now().UnixMilli() - back, SpanMs: int64([]int{1000, 3600_000, 2 * 86400_000, 300}[tp.Side().Choose(4)+tp.Choose(3)*0]), MaxRows: 120, MaxSeries: 5, Plain: true}, i)
 				reqs := m.ToRequests(rows, msgID)
 				msgID += uint64(len(reqs))
 				resps, werr := n.WriteStream(reqs)
@@ -399,7 +402,10 @@ func runMeasureOn(e *simcore.Env, tp *simcore.Tape, cluster bool) {
 		for i, k := 0, tp.Range(2, 9); i < k; i++ {
 			if tp.Weighted(3, 2) == 0 {
 				time.Sleep(time.Millisecond)
-				rows := m.GenBatch(tp, wl.BatchOpts{BaseMs: time.Now().UnixMilli(), SpanMs: int64([]int{1000, 3600_000, 2 * 86400_000}[tp.Choose(3)]), MaxRows: 120, MaxSeries: 5, Plain: true}, i)
+				// late batches: a part may lie INSIDE the time range of an earlier, wider part, and the next one may overlap the
+				// wide one again (nested and chained overlaps of parts within one segment)
+				back := []int64{0, 0, 700, 1800_000, 40_000_000}[tp.Side().Choose(5)]
+				rows := m.GenBatch(tp, wl.BatchOpts{BaseMs: time.Now().UnixMilli() - back, SpanMs: int64([]int{1000, 3600_000, 2 * 86400_000, 300}[tp.Side().Choose(4)+tp.Choose(3)*0]), MaxRows: 120, MaxSeries: 5, Plain: true}, i)
 				reqs := m.ToRequests(rows, msgID)
 				msgID += uint64(len(reqs))
 				resps, werr := n.WriteMeasure(reqs)
